@@ -1,21 +1,24 @@
 """C15 — a duty height once started or decided is never run again, even after restart."""
 CFG = dict(
     level="proof",
-    design_ref="DESIGN.md §7.15, §8 item 5",
-    level_text="Lean 4 theorems over ALL histories of duty starts (attester-style and two-phase begin/decide), commit/decided "
-               "messages (any height, round, root, signer list, validity; via Controller.ProcessMsg or via the runner's ProcessConsensus), "
-               "compactions and restarts (each in full or light mode), from a full or light node, any quorum, no bounds: "
-               "(clause 2) a restart leaves the store untouched and resumes with the stored highest height/instance/highest-decided-slot, and "
-               "once a height is stored as highest NO later history (any number of restarts) starts consensus at or below it; "
-               "(clause 3, partial) the highest record is never lost, its height never decreases, and a same-height replacement has strictly more "
-               "signers than LongestUniqueSignersForRoundAndRoot finds in its own (round, root) bucket of the live instance, hence more than the "
-               "replaced certificate when (round, root) agree and the round is not below State.Round; the FULL clause 3 is refuted in the model "
-               "(other round; same round with trimmed bucket) and both witnesses reproduce on the real controller + real Badger store (known findings); "
-               "(clause 1, partial) proved for light nodes, for attester-style starts of slots != 0 on every node, and as 'never BELOW a seen height' on "
-               "every node; the FULL clause 1 is refuted for full nodes (instance reloaded from storage is not kept) and the witness reproduces on the "
-               "real code (known finding). The model is tied to the code by regenerated constants / call-site / operator facts and by running the model "
-               "and the real controller + runner + Validator.Start + ibft/storage on Badger on the same histories (every step: controller height, "
-               "container incl. commit containers, runner state, highest record, historical records).",
+    design_ref="DESIGN.md §7.15, §8 item 5 (repaired: /repo 358626700, 26e2e6b00)",
+    level_text="Lean 4 theorems about the model of the CURRENT tree (with the fixes 358626700 store `replaces` guard, 26e2e6b00 reloaded instance kept, "
+               "c50569811 duty holding a decided value counts as previously decided), over ALL histories of duty starts (attester-style and two-phase "
+               "begin/decide), commit/decided messages (any height, round, root, signer list, validity; via Controller.ProcessMsg or the runner's "
+               "ProcessConsensus; optionally while the store fails the write), commit-quorum decisions of the running instance (value check accepting "
+               "or rejecting), compactions and restarts (each in full or light mode), from a full or light node, any quorum, no bounds. ALL THREE clauses "
+               "in full: (1) C15_no_restart_of_old_height: every consensus start (StartNewDuty of an attester-style runner, or decide of a two-phase "
+               "runner) is for a slot strictly above every height started or learned decided since the last restart and above the stored highest at "
+               "that restart, on full and light nodes; (2) a restart leaves the store untouched and resumes with the stored highest "
+               "height/instance/highest-decided-slot, a height once stored as highest is never started again by any later history with any number of "
+               "restarts, and (on histories without store-write failures) every valid decided message at or above the controller height, and every "
+               "commit-quorum decision at the controller height whatever the value check says, IS the stored highest afterwards; (3) "
+               "C15_highest_replaced_monotone, from ANY state and every op: the highest record and every historical record are never lost and only "
+               "replaced by a higher height or, at the same height, by a certificate with more signers. The pre-fix semantics are kept "
+               "(Model/HeightsOld.lean) with the three former refutation witnesses as regression lemmas (old: defect; current: closed). The model is tied "
+               "to the code by regenerated constants / call-site / call-order / operator facts and by running the model and the real controller + runner "
+               "+ Validator.Start + ibft/storage on Badger on the same histories (every step: controller height, container incl. commit containers, "
+               "runner state, highest record, historical records).",
     level_note="Trusted: Lean kernel (axioms propext/Classical.choice/Quot.sound only), the go/ast fact extractor, the harness (message construction "
                "with the spec test kit, canonical rendering of real objects, the `ok` fact = real ValidateDecided/BaseMsgValidation verdict), the "
                "in-package shim harness/inpkg/protocol/v2/ssv/runner/zz_verif_heights.go (forwards to unexported baseStartNewDuty/decide/"
